@@ -20,6 +20,12 @@ Theorem C17_complete : forall ps,
   exists t, parse (render ps) = Ok t /\ represents t (piece_events ps).
 Proof. exact ConfProofs.rendered_represented. Qed.
 
+(* ... and the hypothesis no_clobber cannot be dropped: a key line named like an earlier sub-domain of the same
+   domain replaces the sub-domain and everything written in it (known finding conf.name-collision/...) *)
+Theorem C17_complete_full_refuted : ~ (forall ps, doc_ok ps -> short_lines (tokens_of ps) ->
+  exists t, parse (render ps) = Ok t /\ represents t (piece_events ps)).
+Proof. exact ConfProofs.complete_full_refuted. Qed.
+
 Theorem C17_any_nesting : forall d, balanced (tokens_of (flatten_doc d)) = true.
 Proof. exact ConfProofs.flatten_doc_balanced. Qed.
 
@@ -155,6 +161,7 @@ Theorem C17_no_panic_getters : forall s p,
 Proof. exact ConfProofs.getters_no_panic. Qed.
 
 Print Assumptions C17_complete.
+Print Assumptions C17_complete_full_refuted.
 Print Assumptions C17_any_nesting.
 Print Assumptions C17_tokens_exact.
 Print Assumptions C17_kv_line.
